@@ -4,7 +4,8 @@
 # usage: tools/selftest_determinism.sh [props...]   (default: a representative set)
 set -u
 cd "$(dirname "$0")/.."
-B=$(./check --build | tail -1)
+# RACE=1 tests the race-detector build instead (C19)
+if [ -n "${RACE:-}" ]; then B=$(./check --build-for C19 | tail -1); export GORACE="log_path=/dev/null halt_on_error=0"; else B=$(./check --build-for C01 | tail -1); fi
 PROPS=${@:-"C13 C06 C07 C09 C16 C21"}
 RUNS=${RUNS:-14}
 D=$(mktemp -d -p /dev/shm verifsim-det-XXXX)
